@@ -11,7 +11,7 @@ from __future__ import annotations
 
 import sys
 import threading
-from typing import Any, Callable, Dict, List, Optional
+from typing import Tuple, Any, Callable, Dict, List, Optional
 
 from sim.core import Choices, Trace
 
@@ -35,6 +35,9 @@ class SimThread:
         self.blocked_on: Any = None
         self.error: Optional[BaseException] = None
         self.points = 0
+        self.sleeps = 0               # completed virtual sleeps
+        self.last_wake_point = 0      # scheduler point at which the last of them returned
+        self.freeze_in: Optional[int] = None   # freeze after this many more of its own lines
         self.thread = threading.Thread(target=self._run, name=name, daemon=True)
 
     def _run(self) -> None:
@@ -123,6 +126,8 @@ class ThreadSched:
         self.fp: List[str] = []
         self.aborting = False
         self.stall: Dict[str, int] = {}   # thread name -> not schedulable before this many scheduling decisions (stalled-thread fault)
+        self.stall_at: Dict[str, Tuple[int, int]] = {}   # thread name -> (after this many of its own lines, for this many decisions)
+        self.freeze_after_sleep: Dict[str, Tuple[int, int, int]] = {}   # thread -> (k-th sleep, lines after waking, decisions)
 
     def progress(self) -> None:
         """Called by the harness whenever an operation of the workload completes: the step caps are windows of
@@ -153,6 +158,11 @@ class ThreadSched:
         th.wake = self.now_ns + max(int(dt * 1e9), 1)
         self.counters["sleep"] = self.counters.get("sleep", 0) + 1
         self._yield(th)
+        th.sleeps += 1
+        th.last_wake_point = self.points
+        fa = self.freeze_after_sleep.get(th.name)
+        if fa is not None and th.sleeps == fa[0]:
+            th.freeze_in = fa[1]
 
     def lock_factory(self) -> SimLock:
         return SimLock(self)
@@ -173,6 +183,25 @@ class ThreadSched:
         if self.points - self._prog_point > self.max_points or self.points > self.hard_points:
             self.aborting = True
             raise StepCapHit()
+        sa = self.stall_at.get(th.name)
+        if th.freeze_in is not None:
+            # injected fault: a few lines after waking up from its k-th sleep the thread freezes (polling loops look,
+            # then decide: the freeze lands between the two)
+            th.freeze_in -= 1
+            if th.freeze_in <= 0:
+                th.freeze_in = None
+                self.stall[th.name] = self.iters + self.freeze_after_sleep[th.name][2]
+                self.counters["frozen-after-a-sleep"] = self.counters.get("frozen-after-a-sleep", 0) + 1
+                th.state = "ready"
+                self._yield(th)
+                return
+        if sa is not None and th.points == sa[0]:
+            # injected fault: this thread freezes right here (after its sa[0]-th line) for sa[1] scheduling decisions
+            self.stall[th.name] = self.iters + sa[1]
+            self.counters["stalled-at-a-point"] = self.counters.get("stalled-at-a-point", 0) + 1
+            th.state = "ready"
+            self._yield(th)
+            return
         if len(self.threads) > 1 and self.ch.flag(self.switch[0], self.switch[1], "preempt"):
             th.state = "ready"
             self._yield(th)
